@@ -99,6 +99,7 @@ type LoopInfo struct {
 
 type FnVC struct {
 	keyTypes map[string]types.Type // Go type of the values stored under a field / cell heap key
+	mapElemTypes map[string]types.Type // element type of map-value heaps (MV: keys)
 	labelStates map[string]*State // label name -> state before the labelled call
 	labelGuards map[string]string // label name -> reachability of the labelled call
 	labelSites  map[string][2]interface{}
@@ -257,6 +258,17 @@ func (v *FnVC) heapGet(st *State, key string) string {
 					v.asserts = append(v.asserts, fmt.Sprintf("(forall ((a Int)) (! (< (sarr (select %s a)) %s) :pattern ((select %s a))))", name, v.entry.alloc, name))
 				case *types.Pointer, *types.Map, *types.Chan:
 					v.asserts = append(v.asserts, fmt.Sprintf("(forall ((a Int)) (! (< (select %s a) %s) :pattern ((select %s a))))", name, v.entry.alloc, name))
+				}
+			}
+			// references stored as map values in the entry heap exist at entry as well
+			if et, ok := v.mapElemTypes[key]; ok && et != nil {
+				switch et.Underlying().(type) {
+				case *types.Pointer, *types.Map, *types.Chan:
+					ks := strings.TrimPrefix(so, "(Array Int (Array ")
+					if i := strings.LastIndex(ks, " "); i > 0 {
+						ks = ks[:i]
+						v.asserts = append(v.asserts, fmt.Sprintf("(forall ((a Int) (k %s)) (! (< (select (select %s a) k) %s) :pattern ((select (select %s a) k))))", ks, name, v.entry.alloc, name))
+					}
 				}
 			}
 		}
@@ -482,6 +494,10 @@ func (v *FnVC) mapKeys(m *types.Map) (dom, val, ln string) {
 	id := typeKey(m.Key()) + "_" + typeKey(m.Elem())
 	dom = v.regKey("MD:"+id, fmt.Sprintf("(Array Int (Array %s Bool))", ks))
 	val = v.regKey("MV:"+id, fmt.Sprintf("(Array Int (Array %s %s))", ks, vs))
+	if v.mapElemTypes == nil {
+		v.mapElemTypes = map[string]types.Type{}
+	}
+	v.mapElemTypes[val] = m.Elem()
 	ln = v.regKey("ML:"+id, "(Array Int Int)")
 	return
 }
